@@ -33,7 +33,7 @@ CLAIMED = {
         "(all definitions, analysed through an instantiation present in the build) is provably within X's index range on every path "
         "from range guards with error()/throw exits, loop shapes and grow()/resize() post-conditions; at() guards entail non-emptiness "
         "and min<=i<=max; xapyb/sapyb/axpby compare every operand's range with *this before touching elements. The history part of C11 "
-        "(values surviving resize/grow, aliasing, iteration order) is NOT decided, except: Array<1>::resize zero-fills exactly the "
+        "(values surviving resize/grow, aliasing, iteration order) is a constructor of IndexRange<N> records `regular` only for a range it sizes and fills itself (F83, fixed). NOT decided, except: Array<1>::resize zero-fills exactly the "
         "complement of the recorded old range, and every bulk copy into this->begin() of VectorWithOffset fits the storage (range just "
         "established by resize(), or range reset to the start of the allocation + capacity test/reserve for the source's size + length "
         "taken from the source, on every path); every element-wise loop over several operands advances all its "
